@@ -1,3 +1,3 @@
 From Verif Require Import Extract.C08.
 Require Import ExtrOcamlBasic.
-Extraction "c08_model.ml" c08_sp1 c08_sp2 c08_reread1 c08_reread2 c08_print1 c08_print2 c08_parse c08_scan c08_unparen c08_collapse c08_needs_sep c08_rescan1 c08_rescan2 c08_unary_under_postfix c08_right_nested_chain.
+Extraction "c08_model.ml" c08_sp1 c08_sp2 c08_reread1 c08_reread2 c08_print1 c08_print2 c08_parse c08_scan c08_unparen c08_collapse c08_needs_sep c08_rescan1 c08_rescan2 c08_right_nested_chain.
